@@ -62,9 +62,14 @@ Section RsaModel.
   Definition rsa_encrypt (data : list Z) : rres :=
     let c := modexp (be_dec data) e N in
     if c <? 256 ^ c_rsaLen then Ok (be_enc (Z.to_nat c_rsaLen) c) else Panic.
-  (* rsaDecrypt + crypto.FillBytes: false when (bitlen+7)/8 > len(to) *)
+  (* rsaDecrypt: the ciphertext must be exactly rsaLen bytes and below the modulus (otherwise
+     c + k*N and zero-prefixed forms would be aliases of c); then crypto.FillBytes: false when
+     (bitlen+7)/8 > len(to) *)
   Definition rsa_decrypt (data : list Z) (n : nat) : option (list Z) :=
-    let m := modexp (be_dec data) d N in
+    if negb (Z.of_nat (length data) =? c_rsaLen) then None else
+    let c := be_dec data in
+    if N <=? c then None else
+    let m := modexp c d N in
     if m <? 256 ^ Z.of_nat n then Some (be_enc n m) else None.
 
   (* ---- RSAPad ---- *)
@@ -163,3 +168,7 @@ Definition modexp_is_pow (modexp : Z -> Z -> Z -> Z) (N : Z) : Prop :=
 (* matching key pair: decryption undoes encryption below the modulus *)
 Definition rsa_key_pair (N e d : Z) : Prop :=
   0 <= e /\ 0 <= d /\ forall m, 0 <= m < N -> (m ^ e mod N) ^ d mod N = m.
+(* the reverse direction (encryption undoes decryption below the modulus) is used only for the
+   statement that distinct ciphertexts have distinct plaintext blocks *)
+Definition rsa_key_pair_r (N e d : Z) : Prop :=
+  forall c, 0 <= c < N -> (c ^ d mod N) ^ e mod N = c.
